@@ -7,21 +7,19 @@
                   encoding, no cache, no DB) - independent of the model
    code  19     : as 10..18 but the history registers a timer before 1970 (outside the guard of the theorem:
                   uint64(UnixNano) wraps and sorts such timers last) - the recorded known finding *)
-From RV Require Import Base.Bytes Model.KeySpace Model.TimerStore Model.TimerRegistry.
+From RV Require Import Base.Bytes Model.KeySpace Model.TimerStore Model.TimerRegistry Proofs.C10_Spec.
 Open Scope N_scope.
 
 Inductive case :=
 | TC (count start size cache : N) (srids : list N) (ops : list op) (observed : list (list (bytes * Z))).
 
 (* ---------- comparing outputs: ties among equal timestamps as multisets ---------- *)
-Definition fired := (bytes * Z)%type.
 Definition fired_leb (a b : fired) : bool :=
   match (snd a ?= snd b)%Z with
   | Lt => true
   | Gt => false
   | Eq => bleb (fst a) (fst b)
   end.
-Definition fired_eqb (a b : fired) : bool := (snd a =? snd b)%Z && beqb (fst a) (fst b).
 Fixpoint ins_fired (x : fired) (l : list fired) : list fired :=
   match l with
   | [] => [x]
@@ -34,12 +32,6 @@ Fixpoint list_eqb {A} (eqb : A -> A -> bool) (a b : list A) : bool :=
   | x :: a', y :: b' => eqb x y && list_eqb eqb a' b'
   | _, _ => false
   end.
-Fixpoint nondecreasing (l : list fired) : bool :=
-  match l with
-  | x :: ((y :: _) as l') => (snd x <=? snd y)%Z && nondecreasing l'
-  | _ => true
-  end.
-Definition count_fired (x : fired) (l : list fired) : nat := length (filter (fired_eqb x) l).
 
 (* ---------- key groups of the keys of a history, computed once per case with the KeySpace model ---------- *)
 Definition op_keys (o : op) : list bytes :=
@@ -61,56 +53,21 @@ Fixpoint kg_lookup (tbl : list (bytes * N)) (k : bytes) : N :=
   | (x, g) :: tbl' => if beqb k x then g else kg_lookup tbl' k
   end.
 
-(* ---------- the plain oracle ---------- *)
-Record ospec := { o_pending : list fired; o_ups : list (N * Z); o_wm : Z }.
-Definition ospec_new (srids : list N) (pending : list fired) : ospec :=
-  {| o_pending := pending; o_ups := fold_left (fun l id => ups_set id 0%Z l) srids []; o_wm := zero_time |}.
-Definition o_add (x : fired) (l : list fired) : list fired := if existsb (fired_eqb x) l then l else x :: l.
-
-(* one advance of the oracle: the due timers, and the state afterwards.  SetTimer calls after the n-th yield happen iff
-   at least n timers are due; they are subject to the guard with the new composite watermark. *)
-Definition o_advance (sender : N) (wm : Z) (during : list (nat * bytes * Z)) (s : ospec) : list fired * ospec :=
-  let ups := ups_set sender wm (o_ups s) in
-  let cw := ups_min ups in
-  let due := filter (fun x => (snd x <=? cw)%Z) (o_pending s) in
-  let rest := filter (fun x => negb (snd x <=? cw)%Z) (o_pending s) in
-  let rest' := fold_left (fun l e => let '(a, k, t) := e in
-                            if (1 <=? a)%nat && (a <=? length due)%nat && (cw <? t)%Z then o_add (k, t) l else l) during rest in
-  (due, {| o_pending := rest'; o_ups := ups; o_wm := cw |}).
-
+(* ---------- the oracle: Proofs/C10_Spec.v, the specification of the theorems ---------- *)
+(* 10: not in non-decreasing timestamp order; 11: fired a timer that is not due / not pending / fired it twice;
+   12: a due pending timer did not fire *)
 Definition o_check (out due : list fired) : list N :=
-  (if nondecreasing out then [] else [10]) ++
+  (if time_sorted out then [] else [10]) ++
   (if forallb (fun x => (count_fired x out <=? count_fired x due)%nat) out then [] else [11]) ++
   (if forallb (fun x => (count_fired x due <=? count_fired x out)%nat) due then [] else [12]).
 
-(* returns the failure codes of the advances, consuming the observed outputs *)
-Fixpoint oracle (srids : list N) (ops : list op) (obs : list (list fired)) (s : ospec) : list N :=
-  match ops with
-  | [] => []
-  | SetTimer k t :: r =>
-      oracle srids r obs
-        (if (o_wm s <? t)%Z then {| o_pending := o_add (k, t) (o_pending s); o_ups := o_ups s; o_wm := o_wm s |} else s)
-  | Restore :: r => oracle srids r obs (ospec_new srids (o_pending s))
-  | Advance sender wm :: r =>
-      let '(due, s') := o_advance sender wm [] s in
-      match obs with
-      | [] => [1]
-      | out :: obs' => o_check out due ++ oracle srids r obs' s'
-      end
-  | AdvanceSet sender wm during :: r =>
-      let '(due, s') := o_advance sender wm during s in
-      match obs with
-      | [] => [1]
-      | out :: obs' => o_check out due ++ oracle srids r obs' s'
-      end
+Fixpoint oracle (obs dues : list (list fired)) : list N :=
+  match obs, dues with
+  | out :: obs', due :: dues' => o_check out due ++ oracle obs' dues'
+  | _, _ => []
   end.
 
-Definition pre_epoch (ops : list op) : bool :=
-  existsb (fun o => match o with
-                    | SetTimer _ t => (t <? 0)%Z
-                    | AdvanceSet _ _ during => existsb (fun e => (snd e <? 0)%Z) during
-                    | _ => false
-                    end) ops.
+Definition pre_epoch (ops : list op) : bool := negb (forallb op_ok ops).
 
 Fixpoint dedup (l : list N) : list N :=
   match l with
@@ -129,8 +86,7 @@ Definition check_case (c : case) : list N :=
         if (length model =? length observed)%nat
         then if list_eqb (list_eqb fired_eqb) (map sort_fired model) (map sort_fired observed) then [] else [2]
         else [1] in
-      let sp := dedup (oracle srids ops observed (ospec_new srids [])) in
-      let sp := filter (fun c => negb (c =? 1)) sp in
+      let sp := dedup (oracle observed (fst (spec_run srids ops (spec_new srids [])))) in
       m ++ (if pre_epoch ops then (match sp with [] => [] | _ => [19] end) else sp)
   end.
 
